@@ -424,6 +424,7 @@ func (e *Env) appendBuiltin(n *ast.CallExpr) Value {
 		}
 		e.st.mem[a] = ArrayV{T: arr, N: -1, Elem: s.Elem}
 		nl := Add(s.Len, t.Len)
+		e.x.appendInPlace(e, s, old, arr, nl)
 		cp := e.x.fresh("cap", IntS)
 		e.st.assume(Le(nl, cp))
 		return SliceV{Alloc: a, Off: s.Off, Len: nl, Cap: cp, Elem: s.Elem, Nil: And(s.Nil, t.Nil), Typ: s.Typ}
@@ -435,9 +436,28 @@ func (e *Env) appendBuiltin(n *ast.CallExpr) Value {
 	}
 	e.st.mem[a] = ArrayV{T: arr, N: -1, Elem: s.Elem}
 	nl := Add(s.Len, IntC(int64(len(n.Args)-1)))
+	e.x.appendInPlace(e, s, old, arr, nl)
 	cp := e.x.fresh("cap", IntS)
 	e.st.assume(Le(nl, cp))
 	return SliceV{Alloc: a, Off: s.Off, Len: nl, Cap: cp, Elem: s.Elem, Nil: FalseT, Typ: s.Typ}
+}
+
+// appendInPlace: when the spare capacity of s suffices, append writes the new elements into the
+// backing array of s itself. The result of append is modelled as a fresh allocation with the right
+// contents; the effect on the old backing array (visible through every other slice of it, and to
+// the frame checks) is modelled here: old' = fits ? written : old.
+func (x *Exec) appendInPlace(e *Env, s SliceV, old ArrayV, written *Term, newLen *Term) {
+	if written == old.T {
+		return
+	}
+	if s.Alloc == 0 {
+		return
+	}
+	fits := x.simplifyWithPC(e.st, Le(newLen, s.Cap))
+	if fits.IsFalse() {
+		return
+	}
+	x.setMem(e.st, s.Alloc, s.path, ArrayV{T: Ite(fits, written, old.T), N: old.N, Elem: old.Elem, Typ: old.Typ})
 }
 
 func (e *Env) copyBuiltin(n *ast.CallExpr) Value {
@@ -586,6 +606,13 @@ func (e *Env) contractForm(name string, n *ast.CallExpr) (Value, bool) {
 	case "mathint":
 		v := e.expr(n.Args[0])
 		return Scalar{e.toIntTerm(v), mathIntType}, true
+	case "be":
+		// be(b): big-endian value of a byte string
+		sv, ok := e.expr(n.Args[0]).(SliceV)
+		if !ok {
+			unsupported("%s: be() of a non-slice", e.where)
+		}
+		return Scalar{e.x.beValue(e, sv), mathIntType}, true
 	case "has_inverse":
 		a := e.toIntTerm(e.derefBig(e.expr(n.Args[0])))
 		m := e.toIntTerm(e.derefBig(e.expr(n.Args[1])))
@@ -867,8 +894,51 @@ func (x *Exec) flatten(e *Env, v Value, t types.Type) []*Term {
 	case UConst:
 		return x.flatten(e, e.convert(s, t), t)
 	}
+	if sv, ok := v.(StructV); ok {
+		// a struct passed where an interface is expected: when it only embeds a value of that
+		// interface and declares none of the interface's methods itself, it behaves as the embedded value
+		if it, ok := t.Underlying().(*types.Interface); ok {
+			if st, ok := sv.Typ.Underlying().(*types.Struct); ok {
+				for i := 0; i < st.NumFields(); i++ {
+					f := st.Field(i)
+					if f.Embedded() && types.Identical(f.Type(), t) && !declaresAny(sv.Typ, it) {
+						return x.flatten(e, sv.F[f.Name()], t)
+					}
+				}
+			}
+		}
+	}
 	unsupported("spec argument of kind %T", v)
 	return nil
+}
+
+func (x *Exec) flattenSafe(e *Env, v Value, t types.Type) (out []*Term) {
+	defer func() {
+		if r := recover(); r != nil {
+			if _, ok := r.(*UnsupportedError); ok {
+				out = nil
+				return
+			}
+			panic(r)
+		}
+	}()
+	return x.flatten(e, v, t)
+}
+
+// declaresAny: does the named type (or its pointer) itself declare a method of the interface?
+func declaresAny(t types.Type, it *types.Interface) bool {
+	nt, ok := t.(*types.Named)
+	if !ok {
+		return true
+	}
+	for i := 0; i < nt.NumMethods(); i++ {
+		for j := 0; j < it.NumMethods(); j++ {
+			if nt.Method(i).Name() == it.Method(j).Name() {
+				return true
+			}
+		}
+	}
+	return false
 }
 
 func (x *Exec) defineRec(e *Env, sf *SpecFn, spkg *packages.Package, name string, ptypes []types.Type, rt types.Type, rs *Sort) {
@@ -1189,6 +1259,12 @@ func (x *Exec) modularCall(e *Env, callee *types.Func, c *Contract, args []Value
 		}
 		results = append(results, v)
 		ce.names[nm] = v
+		if hasName(c.Borrowed, nm) {
+			if sv, ok := v.(SliceV); ok {
+				arr := x.memArr(e.st, sv.Alloc, sv.path)
+				e.st.borrowed = append(e.st.borrowed, borrowRec{alloc: sv.Alloc, path: sv.path, arr: arr.T, off: sv.Off, cap: sv.Cap, where: short + "." + nm})
+			}
+		}
 	}
 	for _, lc := range c.Lets {
 		if t := x.letTypeIn(lc, callee); t != nil {
